@@ -475,6 +475,16 @@ def g5iii_allocator_validation(prog):
                         if body.edge_dominates((sb, st['targets'][st['values'].index(0)]), b):
                             ok = True
         if not ok:
+            # idiom: `if slot.is_some() { return Err(..) }` / `if slot.is_none() { *slot = .. }`
+            for cb, ct in body.calls(lambda c: c['name'] in ('is_some', 'is_none') and c['path'].startswith('core::option::Option')):
+                a = op_place(ct['args'][0])
+                if a is None or normalize_access(access_of_place(body, a)).key()[0] != normalize_access(access_of_local(body, sl)).key()[0]:
+                    continue
+                for sb_, t_true, t_false in bool_switches(body, ct['dest']['l']):
+                    empty_edge = t_false if ct['f']['name'] == 'is_some' else t_true
+                    if body.edge_dominates((sb_, empty_edge), b):
+                        ok = True
+        if not ok:
             r.viol('G5iii', 'slot-overwrite', f.loc(s['ln']), 'a slot is filled without first checking that it is still empty: duplicate entity indices in the input would be accepted')
     # get_mut results `?`-propagated
     gm = [(b, t) for b, t in body.calls(lambda c: c['name'] == 'get_mut' and c['path'].startswith('core::slice'))]
